@@ -31,6 +31,13 @@ fn compute_subscribe_packet_length_properties5(packet: &SubscribePacket) -> Gnei
         total_remaining_length += subscription.topic_filter.len();
     }
 
+    // check before narrowing: a length of 2 ^ 32 or more would wrap around and pass every later size check
+    if total_remaining_length > MAXIMUM_VARIABLE_LENGTH_INTEGER {
+        let message = "compute_subscribe_packet_length_properties5 - vli value exceeds the protocol maximum (2 ^ 28 - 1)";
+        error!("{}", message);
+        return Err(GneissError::new_encoding_failure(message));
+    }
+
     Ok((total_remaining_length as u32, subscribe_property_section_length as u32))
 }
 
@@ -95,6 +102,13 @@ fn compute_subscribe_packet_length_properties311(packet: &SubscribePacket) -> Gn
     total_remaining_length += packet.subscriptions.len() * 3;
     for subscription in &packet.subscriptions {
         total_remaining_length += subscription.topic_filter.len();
+    }
+
+    // check before narrowing: a length of 2 ^ 32 or more would wrap around and pass every later size check
+    if total_remaining_length > MAXIMUM_VARIABLE_LENGTH_INTEGER {
+        let message = "compute_subscribe_packet_length_properties311 - vli value exceeds the protocol maximum (2 ^ 28 - 1)";
+        error!("{}", message);
+        return Err(GneissError::new_encoding_failure(message));
     }
 
     Ok(total_remaining_length as u32)
